@@ -313,17 +313,17 @@ func ciClash(pool []lit, l lit) bool {
 	return false
 }
 
-// ciNodes calls f for every string literal that an IN list or a <=> comparison relates to a
-// column with a case-insensitive collation.
-func ciNodes(sh *shape, p pred, f func(col int, l *lit)) {
+// ciNodes calls f for every string literal that an IN list (inList) or a <=> comparison
+// (!inList) relates to a column with a case-insensitive collation.
+func ciNodes(sh *shape, p pred, inList bool, f func(col int, l *lit)) {
 	walk(p, func(n pred) {
 		switch x := n.(type) {
 		case *pCmp:
-			if x.op == "<=>" && ciKind(sh.cols[x.col].k) && x.v.lk == lStr {
+			if !inList && x.op == "<=>" && ciKind(sh.cols[x.col].k) && x.v.lk == lStr {
 				f(x.col, &x.v)
 			}
 		case *pIn:
-			if ciKind(sh.cols[x.col].k) {
+			if inList && ciKind(sh.cols[x.col].k) {
 				for i := range x.vs {
 					if x.vs[i].lk == lStr {
 						f(x.col, &x.vs[i])
@@ -332,6 +332,31 @@ func ciNodes(sh *shape, p pred, f func(col int, l *lit)) {
 			}
 		}
 	})
+}
+
+// ciFinding builds the two findings about filters that ignore the column collation.
+func ciFinding(id string, inList bool, where string) finding {
+	return finding{
+		id: id,
+		sig: func(t *tinfo, p pred) bool {
+			hit := false
+			ciNodes(t.sh, p, inList, func(col int, l *lit) { hit = hit || ciClash(t.pools[col], *l) })
+			return hit
+		},
+		outcome: outcome.bothOK,
+		steer: func(t *tinfo, p pred) {
+			ciNodes(t.sh, p, inList, func(col int, l *lit) {
+				if ciClash(t.pools[col], *l) {
+					*l = strLit("zq") // equal to no stored value under any collation
+				}
+			})
+		},
+		witness: witness{
+			setup: []string{"CREATE TABLE ti (s VARCHAR(8) COLLATE utf8mb4_0900_ai_ci, KEY ks (s))", "CREATE TABLE tn (s VARCHAR(8) COLLATE utf8mb4_0900_ai_ci)",
+				"INSERT INTO ti VALUES ('A'), ('b')", "INSERT INTO tn VALUES ('A'), ('b')"},
+			where: where,
+		},
+	}
 }
 
 // ---------------------------------------------------------------------------------------------
@@ -344,7 +369,8 @@ const (
 	kfDateTrunc     = "C03-date-range-truncates-datetime-literal"
 	kfInFraction    = "C03-hashin-rounds-fraction"
 	kfBigAsFloat    = "C03-bigint-compared-as-float"
-	kfCIIgnored     = "C03-ci-collation-ignored-in-filter"
+	kfCIIn          = "C03-in-list-ignores-ci-collation"
+	kfCINullSafeEq  = "C03-nullsafe-equals-ignores-ci-collation"
 )
 
 var findings = []finding{
@@ -532,32 +558,15 @@ var findings = []finding{
 			where: "u = 9223372036854775806",
 		},
 	},
-	{
-		// IN / NOT IN lists and <=> over a VARCHAR column with a case-insensitive collation:
-		// evaluated as a filter (scan side) they compare the strings binary, ignoring the column
-		// collation that =, <, BETWEEN and LIKE honour; the index ranges honour it. The two paths
-		// disagree whenever a stored value and a literal are equal under the collation but not
-		// byte-equal. (IN: same cause as C29-in-binary / C07-in-collation.)
-		id: kfCIIgnored,
-		sig: func(t *tinfo, p pred) bool {
-			hit := false
-			ciNodes(t.sh, p, func(col int, l *lit) { hit = hit || ciClash(t.pools[col], *l) })
-			return hit
-		},
-		outcome: outcome.bothOK,
-		steer: func(t *tinfo, p pred) {
-			ciNodes(t.sh, p, func(col int, l *lit) {
-				if ciClash(t.pools[col], *l) {
-					*l = strLit("zq") // equal to no stored value under any collation
-				}
-			})
-		},
-		witness: witness{
-			setup: []string{"CREATE TABLE ti (s VARCHAR(8) COLLATE utf8mb4_0900_ai_ci, KEY ks (s))", "CREATE TABLE tn (s VARCHAR(8) COLLATE utf8mb4_0900_ai_ci)",
-				"INSERT INTO ti VALUES ('A'), ('b')", "INSERT INTO tn VALUES ('A'), ('b')"},
-			where: "s IN ('a')",
-		},
-	},
+	// IN / NOT IN lists over a VARCHAR column with a case-insensitive collation: evaluated as a
+	// filter (scan side) HashInTuple hashes the strings under the default binary collation,
+	// ignoring the column collation that =, <, BETWEEN and LIKE honour; the index ranges honour it.
+	// The two paths disagree whenever a stored value and a literal are equal under the collation but
+	// not byte-equal. (Same cause as C29-in-binary / C07-in-collation.)
+	ciFinding(kfCIIn, true, "s IN ('a')"),
+	// The same for the <=> operator: NullSafeEquals.Compare lacks the collation step of
+	// comparison.Compare.
+	ciFinding(kfCINullSafeEq, false, "s <=> 'a'"),
 }
 
 // steerAround rewrites a filter that lies in the region of a *listed* known finding into the
